@@ -89,8 +89,18 @@ class SuppressSpec(kernels.InvSpec):
     state = {"temp_keep": "Bool"}
     ghosts = {"killer": "Int"}  # killer[i]: rank (visit number) of the kept particle that removed particle i
 
-    def __init__(self, perm, d, n):
-        self.p, self.d, self.n = perm, d, n
+    def __init__(self, perm, d, n, keep_obj=None):
+        self.p, self.d, self.n, self.keep_obj = perm, d, n, keep_obj
+
+    def resolve(self, env):
+        """the role temp_keep is played by whichever local holds the boolean array allocated with np.ones before the loop"""
+        e = env
+        while e is not None and self.keep_obj is not None:
+            for k, v in e.vars.items():
+                if v is self.keep_obj:
+                    return {"temp_keep": k}
+            e = e.parent
+        return {}
 
     def inv(self, k, S, G):
         keep, kl = S["temp_keep"], G["killer"]
@@ -148,11 +158,12 @@ class CleanByDistance(Contract):
                 if dtype is not bool and dtype is not BUILTINS["bool"]:
                     raise sym.Unsupported("np.ones dtype")
                 n = shape[0] if isinstance(shape, tuple) else shape
-                return kernels.FnArr.const(True, n, "Bool", "temp_keep")
+                holder["keep_obj"] = kernels.FnArr.const(True, n, "Bool", "temp_keep")
+                return holder["keep_obj"]
 
         def inv_factory(perm, env):
             holder["perm"] = perm
-            return SuppressSpec(perm, d.t, to_z3(perm.n))
+            return SuppressSpec(perm, d.t, to_z3(perm.n), holder.get("keep_obj"))
         cx.inv_spec_factory = inv_factory
         it.globals["np"] = NPS()
         it.globals["pd"] = PDStub(it.globals["pd"])
@@ -569,6 +580,18 @@ class PeakSpec(kernels.InvSpec):
     def __init__(self, seq, r):
         self.q, self.r = seq, r
 
+    def resolve(self, env):
+        """roles by what the locals hold: the set of remaining candidate keys, and the (still empty) list that collects the kept ones"""
+        out, e = {}, env
+        while e is not None:
+            for k, v in e.vars.items():
+                if isinstance(v, _RemSet):
+                    out.setdefault("remaining_coords", k)
+                elif isinstance(v, list) and v == [] or isinstance(v, kernels.AppendLog):
+                    out.setdefault("filtered_coords", k)
+            e = e.parent
+        return out
+
     def inv(self, k, S, G):
         rem, kept, kl = S["remaining_coords"], S["filtered_coords"], G["killer"]
         D, M, sc, r = _CandTree.DIST, self.q.M, self.q.score, self.r
@@ -627,17 +650,22 @@ class TmanaSuppression(Contract):
             t = _CandTree(p)
             rec["tree"] = t
             return t
-        cx.inv_spec_factory = lambda q, env: PeakSpec(q, diam.t)
+        def mkspec(q, env):
+            rec["spec"] = PeakSpec(q, diam.t)
+            return rec["spec"]
+        cx.inv_spec_factory = mkspec
         g = common.base_globals()
         g.update({"KDTree": mktree, "set": mkset, "tuple": mktuple})
         it = Interp("tmana", g)
         f = it.block_function("scores_extract_particles", lambda s: s.startswith("tree = KDTree("), lambda s: s.startswith("for (coord, score) in scored_coords:") or s.startswith("for coord, score in scored_coords:"),
-                              ["scored_coords", "particle_diameter"], ["filtered_coords", "remaining_coords"])
+                              ["scored_coords", "particle_diameter"], [])
 
         def thunk():
             rec.clear()
-            out = f(seq, diam)
-            return dict(rec, out=out, queries=list(getattr(ctx(), "ball_queries", [])))
+            f(seq, diam)
+            spec = rec.get("spec")
+            objs = getattr(spec, "bound_objects", {}) if spec is not None else {}
+            return dict(rec, out=(objs.get("filtered_coords"), objs.get("remaining_coords")), queries=list(getattr(ctx(), "ball_queries", [])))
         return thunk, {"seq": seq, "diam": diam, "lines": it.block_lines}
 
     def post(self, cx, cfg, inp, res):
